@@ -1,6 +1,6 @@
 """Property-specific side harnesses called by bin/checklib (see props.py, key 'extra').
 Each returns a list of (replay path, suffix) violations and may add keys to the coverage dict."""
-import os, subprocess, json, re
+import os, subprocess, json, re, glob
 import checklib as L
 
 
@@ -483,9 +483,13 @@ def conc_explore(prop, tier, seed, cov, log):
     blocks = 24 if tier == 'quick' else 480
     chunks = 8 if tier == 'quick' else 16
     per = max(1, blocks // chunks)
+    corpus = sorted(glob.glob(f'{L.V}/corpus/conc/*.hist'))
     def run(i):
-        r = subprocess.run([f'{L.BIN}/drive', 'conc', '-seed', str(seed * 1000 + i), '-n', str(per), '-steps', '30'],
-                           capture_output=True, text=True, env=L.GOENV, timeout=3000)
+        if i < 0:   # a corpus history: its concurrent block under every interleaving within the bound
+            cmd = [f'{L.BIN}/drive', 'explore', '-in', corpus[-i - 1], '-max', '1500' if tier == 'quick' else '20000']
+        else:
+            cmd = [f'{L.BIN}/drive', 'conc', '-seed', str(seed * 1000 + i), '-n', str(per), '-steps', '30']
+        r = subprocess.run(cmd, capture_output=True, text=True, env=L.GOENV, timeout=3000)
         if r.returncode != 0:
             return i, None, None, r.stderr[-2000:]
         d = subprocess.run([L.DRIVER], input=r.stdout, capture_output=True, text=True)
@@ -512,7 +516,7 @@ def conc_explore(prop, tier, seed, cov, log):
                               'replay': f'.cache/bin/drive replay -in replays/{prop}-{cause}.trace | lean/.lake/build/bin/driver   (the E conc line carries the schedule)'}, body)
         viol.append((path, ' no-failing-input-found' if nfi else ''))
     with cf.ThreadPoolExecutor(max_workers=L.NCPU) as ex:
-        for i, trace, out, err in ex.map(run, range(chunks)):
+        for i, trace, out, err in ex.map(run, list(range(-len(corpus), 0)) + list(range(chunks))):
             if err:
                 report('conc-harness', i, err, None, 0, nfi=True); continue
             m = re.search(r'CSTAT explored=(\d+) distinct=(\d+) deadlocks=(\d+)', trace)
@@ -538,4 +542,5 @@ def conc_explore(prop, tier, seed, cov, log):
     cov['conc_outcomes_explained_by_a_serial_order_of_the_model'] = hist - unser
     cov['conc_outcomes_no_serial_order_explains'] = unser
     cov['conc_deadlocks'] = tot['deadlocks']
+    cov['conc_corpus_histories'] = [os.path.basename(c) for c in corpus]
     return viol
